@@ -138,6 +138,8 @@ def default_policy(rng, ssrc, **kw):
              mki_size=0, window=128, allow_repeat=False, cryptex=False, enc_xtn=b"", use_key_field=True, valid=True)
     if AEAD and "rtp" not in kw and "rtcp" not in kw:
         bits = rng.choice([128, 128, 256])
+        if "keys" in kw and min(len(k) for k, _ in kw["keys"]) < 44:
+            bits = 128                      # the caller's key buffers are 30 octets: enough for GCM-128 (28) only
         d["rtp"] = gcm_cp(bits, rng.choice([16, 16, 8])); d["rtcp"] = gcm_cp(bits, rng.choice([16, 16, 8]))
         if "keys" not in kw:
             d["keys"] = [(rand_key(rng, 44), b"")]
